@@ -7,30 +7,31 @@ W=/tmp/confirm_$ID
 rm -rf $W; git -C /repo worktree prune; git -C /repo worktree add -q --detach $W HEAD || exit 2
 cd $W
 export CARGO_TARGET_DIR=/tmp/confirm_target
+REL=""; grep -q -- "--release" $SRC/README.md && REL="--release"
 run_demo() {
   if grep -q "io/tests" $SRC/README.md; then
     mkdir -p io/tests; cp $SRC/demo.rs io/tests/seed_demo.rs
-    cargo test -p flatty-io --offline --test seed_demo >/tmp/confirm_$ID.demo.log 2>&1; rc=$?
+    cargo test $REL -p flatty-io --offline --test seed_demo >/tmp/confirm_$ID.demo.log 2>&1; rc=$?
     rm -rf io/tests
   elif grep -q "portable/tests" $SRC/README.md; then
     mkdir -p portable/tests; cp $SRC/demo.rs portable/tests/seed_demo.rs
-    cargo test -p flatty-portable --offline --test seed_demo >/tmp/confirm_$ID.demo.log 2>&1; rc=$?
+    cargo test $REL -p flatty-portable --offline --test seed_demo >/tmp/confirm_$ID.demo.log 2>&1; rc=$?
     rm -rf portable/tests
   elif grep -q "containers/tests" $SRC/README.md; then
     mkdir -p containers/tests; cp $SRC/demo.rs containers/tests/seed_demo.rs
-    cargo test -p flatty-containers --offline --test seed_demo >/tmp/confirm_$ID.demo.log 2>&1; rc=$?
+    cargo test $REL -p flatty-containers --offline --test seed_demo >/tmp/confirm_$ID.demo.log 2>&1; rc=$?
     rm -rf containers/tests
   elif grep -q "portable/src/seed_demo.rs" $SRC/README.md; then
     cp $SRC/demo.rs portable/src/seed_demo.rs; printf '\n#[cfg(test)]\nmod seed_demo;\n' >> portable/src/lib.rs
-    cargo test -p flatty-portable --offline seed_demo >/tmp/confirm_$ID.demo.log 2>&1; rc=$?
+    cargo test $REL -p flatty-portable --offline seed_demo >/tmp/confirm_$ID.demo.log 2>&1; rc=$?
     rm portable/src/seed_demo.rs; git checkout -q portable/src/lib.rs
   elif grep -q "io/src/tests" $SRC/README.md; then
     cp $SRC/demo.rs io/src/tests/seed_demo.rs; echo "mod seed_demo;" >> io/src/tests/mod.rs
-    cargo test -p flatty-io --offline seed_demo >/tmp/confirm_$ID.demo.log 2>&1; rc=$?
+    cargo test $REL -p flatty-io --offline seed_demo >/tmp/confirm_$ID.demo.log 2>&1; rc=$?
     rm io/src/tests/seed_demo.rs; git checkout -q io/src/tests/mod.rs
   else
     cp $SRC/demo.rs tests/src/seed_demo.rs; echo "mod seed_demo;" >> tests/src/lib.rs
-    cargo test -p flatty-tests --offline seed_demo >/tmp/confirm_$ID.demo.log 2>&1; rc=$?
+    cargo test $REL -p flatty-tests --offline seed_demo >/tmp/confirm_$ID.demo.log 2>&1; rc=$?
     rm tests/src/seed_demo.rs; git checkout -q tests/src/lib.rs
   fi
   grep -E "^test result|error\[" /tmp/confirm_$ID.demo.log | head -3
